@@ -73,8 +73,17 @@ def main():
         print(f"{m['name']:40s} tests={r.get('tests', '-'):30s} caught_by={caught} "
               f"{ {p: (v['rc'], v['kinds'][:3]) for p, v in r.get('props', {}).items()} } {r.get('error', '')}", flush=True)
     # evidence of self-validation is kept out of evidence/: the harness rewrites that directory
-    with open(os.path.join(VERIF, "out", "mutation_results.json"), "w") as f:
-        json.dump(res, f, indent=1)
+    path = os.path.join(VERIF, "out", "mutation_results.json")
+    merged = {}
+    if os.path.exists(path):
+        try:
+            merged = {r["name"]: r for r in json.load(open(path))}
+        except Exception:
+            merged = {}
+    for r in res:
+        merged[r["name"]] = r
+    with open(path, "w") as f:
+        json.dump(list(merged.values()), f, indent=1)
 
 
 if __name__ == "__main__":
